@@ -234,6 +234,10 @@ Arguments aa_num_data_series {F L} _.
 Arguments aa_rho {F L} _.
 Arguments aa_sparsity_weight {F L} _.
 
+(* a / b on two ints with b not a literal: exact quotient, ZeroDivisionError when b = 0 *)
+Definition py_truediv_int (a b : Z) : res Q :=
+  if b =? 0 then Raise "ZeroDivisionError" else Ret (Qdiv (inject_Z a) (inject_Z b)).
+
 (* ---- dictionaries with integer keys (insertion order is not observable in the translated code) ---- *)
 Definition py_dict_get {V : Type} (d : list (Z * V)) (k : Z) : res V :=
   match find (fun kv => fst kv =? k) d with
